@@ -42,7 +42,9 @@ fn main() {
             }),
         };
         v["id"] = id;
-        writeln!(out, "{v}").expect("stdout");
+        // user-visible prints of the code under test (e.g. Libtest forwards Log events with `print!`)
+        // may precede the result on the same line: start a fresh, marked line
+        writeln!(out, "\n@@R {v}").expect("stdout");
         out.flush().expect("flush");
     }
 }
